@@ -1524,6 +1524,358 @@ func realCase(r *gen.Rand, which int) (t *T, encs [][]byte, reDecode func(h []by
 	return
 }
 
+// ---------------------------------------------------------------- recursive type families
+//
+// reflect.StructOf cannot build recursive types, so a handful of named ones are declared here.
+// They reach themselves through a slice, a slice of slices, a tail slice, a pointer, a slice of
+// pointers, and as a mutually recursive pair.  The model sees a value of such a type through a
+// descriptor unfolded to a finite depth (recDesc).  lib/rlp resolves writers/decoders of
+// recursive types through placeholders in a process-global type cache, so the outcome may depend
+// on which member of a family is handed to the package first: every recursive case does its
+// value operations in a FRESH child process (harness -rec) after a generated first-use preamble.
+
+type RecTree struct {
+	X    uint64
+	Kids []RecTree
+}
+type RecForest struct {
+	X    uint64
+	Kids [][]RecForest
+}
+type RecTail struct {
+	X    uint64
+	Kids []RecTail `rlp:"tail"`
+}
+type RecPtr struct {
+	X    uint64
+	Next *RecPtr `rlp:"nil"`
+}
+type RecPS struct {
+	X    uint64
+	Kids []*RecPS
+}
+type RecA struct {
+	N  uint64
+	Bs []RecB
+}
+type RecB struct {
+	S  []byte
+	As []RecA
+}
+
+const nRecFam = 6
+
+var recFamNames = []string{"tree-slice", "forest-slice-of-slices", "tail-slice", "pointer-nil", "slice-of-pointers", "mutual-pair"}
+
+func stubT() *T { return &T{K: "u", Bits: 16, rt: reflect.TypeOf(uint16(0))} }
+
+func u64T() *T { return &T{K: "u", Bits: 64, rt: reflect.TypeOf(uint64(0))} }
+
+// recDesc unfolds family fam to depth d (a value with at most d levels of children fits).
+func recDesc(fam, d int) *T {
+	var self reflect.Type
+	switch fam {
+	case 0:
+		self = reflect.TypeOf(RecTree{})
+	case 1:
+		self = reflect.TypeOf(RecForest{})
+	case 2:
+		self = reflect.TypeOf(RecTail{})
+	case 3:
+		self = reflect.TypeOf(RecPtr{})
+	case 4:
+		self = reflect.TypeOf(RecPS{})
+	default:
+		return recDescA(d)
+	}
+	child := stubT()
+	if d > 0 {
+		child = recDesc(fam, d-1)
+	}
+	st := &T{K: "struct", rt: self}
+	switch fam {
+	case 0:
+		st.Fields = []F{{T: u64T()}, {T: &T{K: "list", Elem: child, rt: reflect.SliceOf(self)}}}
+	case 1:
+		inner := &T{K: "list", Elem: child, rt: reflect.SliceOf(self)}
+		st.Fields = []F{{T: u64T()}, {T: &T{K: "list", Elem: inner, rt: reflect.SliceOf(reflect.SliceOf(self))}}}
+	case 2:
+		st.Fields = []F{{T: u64T()}, {T: &T{K: "list", Elem: child, rt: reflect.SliceOf(self)}, Tail: true}}
+	case 3:
+		st.Fields = []F{{T: u64T()}, {T: &T{K: "ptr", Elem: child, rt: reflect.PtrTo(self)}, Nil: "nil"}}
+	case 4:
+		pt := &T{K: "ptr", Elem: child, rt: reflect.PtrTo(self)}
+		st.Fields = []F{{T: u64T()}, {T: &T{K: "list", Elem: pt, rt: reflect.SliceOf(reflect.PtrTo(self))}}}
+	}
+	return st
+}
+
+func recDescA(d int) *T {
+	child := stubT()
+	if d > 0 {
+		child = recDescB(d - 1)
+	}
+	return &T{K: "struct", rt: reflect.TypeOf(RecA{}), Fields: []F{{T: u64T()},
+		{T: &T{K: "list", Elem: child, rt: reflect.TypeOf([]RecB{})}}}}
+}
+
+func recDescB(d int) *T {
+	child := stubT()
+	if d > 0 {
+		child = recDescA(d - 1)
+	}
+	return &T{K: "struct", rt: reflect.TypeOf(RecB{}), Fields: []F{{T: &T{K: "bytes", rt: reflect.TypeOf([]byte{})}},
+		{T: &T{K: "list", Elem: child, rt: reflect.TypeOf([]RecA{})}}}}
+}
+
+func genTree(r *gen.Rand, d int) RecTree {
+	v := RecTree{X: genU64(r, 64), Kids: []RecTree{}}
+	if d > 0 {
+		for n := r.Intn(4); n > 0; n-- {
+			v.Kids = append(v.Kids, genTree(r, d-1-r.Intn(d)))
+		}
+	}
+	return v
+}
+
+func genForest(r *gen.Rand, d int) RecForest {
+	v := RecForest{X: genU64(r, 64), Kids: [][]RecForest{}}
+	if d > 0 {
+		for n := r.Intn(3); n > 0; n-- {
+			row := []RecForest{}
+			for m := r.Intn(3); m > 0; m-- {
+				row = append(row, genForest(r, d-1-r.Intn(d)))
+			}
+			v.Kids = append(v.Kids, row)
+		}
+	}
+	return v
+}
+
+func genTail(r *gen.Rand, d int) RecTail {
+	v := RecTail{X: genU64(r, 64), Kids: []RecTail{}}
+	if d > 0 {
+		for n := r.Intn(4); n > 0; n-- {
+			v.Kids = append(v.Kids, genTail(r, d-1-r.Intn(d)))
+		}
+	}
+	return v
+}
+
+func genPtr(r *gen.Rand, d int) RecPtr {
+	v := RecPtr{X: genU64(r, 64)}
+	if d > 0 {
+		n := genPtr(r, d-1)
+		v.Next = &n
+	}
+	return v
+}
+
+func genPS(r *gen.Rand, d int) RecPS {
+	v := RecPS{X: genU64(r, 64), Kids: []*RecPS{}}
+	if d > 0 {
+		for n := r.Intn(4); n > 0; n-- {
+			k := genPS(r, d-1-r.Intn(d))
+			v.Kids = append(v.Kids, &k)
+		}
+	}
+	return v
+}
+
+func genA(r *gen.Rand, d int) RecA {
+	v := RecA{N: genU64(r, 64), Bs: []RecB{}}
+	if d > 0 {
+		for n := r.Intn(3); n > 0; n-- {
+			b := RecB{S: genBytes(r), As: []RecA{}}
+			if len(b.S) > 40 {
+				b.S = b.S[:40]
+			}
+			if d > 1 {
+				for m := r.Intn(3); m > 0; m-- {
+					b.As = append(b.As, genA(r, d-2))
+				}
+			}
+			v.Bs = append(v.Bs, b)
+		}
+	}
+	return v
+}
+
+const nRecOrders = 6
+
+var recOrderNames = []string{"value-first", "slice-first", "decode-first", "pointer-first", "slice-of-slices-first", "container-first"}
+
+// recPlan draws the family, the first-use order and the values of a recursive case; parent and
+// child call it on the same PRNG state.
+func recPlan(r *gen.Rand) (fam, order int, vals []interface{}) {
+	fam, order = r.Intn(nRecFam), r.Intn(nRecOrders)
+	for i := 0; i < 3; i++ {
+		d := r.Intn(4)
+		if i == 0 && d == 0 {
+			d = 1 + r.Intn(3)
+		}
+		switch fam {
+		case 0:
+			vals = append(vals, genTree(r, d))
+		case 1:
+			vals = append(vals, genForest(r, d))
+		case 2:
+			vals = append(vals, genTail(r, d))
+		case 3:
+			vals = append(vals, genPtr(r, d))
+		case 4:
+			vals = append(vals, genPS(r, d))
+		default:
+			vals = append(vals, genA(r, d))
+		}
+	}
+	return
+}
+
+// recPreamble touches the type cache in the drawn order before any value is encoded.
+func recPreamble(fam, order int) {
+	self := recDesc(fam, 0).rt
+	var first interface{}
+	switch order {
+	case 0:
+		return
+	case 1:
+		first = reflect.MakeSlice(reflect.SliceOf(self), 0, 0).Interface()
+	case 2:
+		e, _, _ := safeEncode("geth", reflect.New(self).Elem().Interface())
+		safeDecode("kai", e, reflect.New(self).Interface())
+		return
+	case 3:
+		first = reflect.New(self).Interface()
+	case 4:
+		first = reflect.MakeSlice(reflect.SliceOf(reflect.SliceOf(self)), 0, 0).Interface()
+	default:
+		first = reflect.New(reflect.StructOf([]reflect.StructField{{Name: "A", Type: reflect.TypeOf(uint64(0))}, {Name: "B", Type: self}})).Elem().Interface()
+	}
+	safeEncode("kai", first)
+}
+
+// recChildMain: harness -rec <seed> <case>; prints, per value, "e <hex>" | "PANIC <msg>", then
+// (if encoded) the decode observable and the arbiter verdict.
+func recChildMain(args []string) {
+	seed, _ := strconv.ParseUint(args[0], 10, 64)
+	c, _ := strconv.ParseUint(args[1], 10, 64)
+	r := gen.New(seed).Fork(c)
+	fam, order, vals := recPlan(r)
+	t := recDesc(fam, 4)
+	recPreamble(fam, order)
+	w := bufio.NewWriter(os.Stdout)
+	defer w.Flush()
+	for _, v := range vals {
+		e, err, pan := safeEncode("kai", v)
+		if pan {
+			fmt.Fprintf(w, "PANIC %s\n", strings.ReplaceAll(fmt.Sprint(err), " ", "_"))
+			continue
+		}
+		if err != nil {
+			fmt.Fprintf(w, "e err %s\n", errClass(err))
+			continue
+		}
+		fmt.Fprintf(w, "e %s\n", hexs(e))
+		p := reflect.New(t.rt)
+		if derr, dpan := safeDecode("kai", e, p.Interface()); dpan {
+			fmt.Fprintln(w, "PANIC")
+		} else if derr != nil {
+			fmt.Fprintf(w, "d err %s\n", errClass(derr))
+		} else {
+			fmt.Fprintf(w, "d ok %s\n", dump(t, p.Elem()))
+		}
+		if g, gerr, gpan := safeEncode("geth", v); gpan || gerr != nil || !bytes.Equal(g, e) {
+			fmt.Fprintf(w, "a differs %s\n", hexs(g))
+		} else {
+			fmt.Fprintln(w, "a same")
+		}
+	}
+	w.Flush()
+	os.Exit(0)
+}
+
+func runRecChild(c int) []string {
+	cmd := exec.Command(os.Args[0], "-rec", fmt.Sprint(*out.Seed), fmt.Sprint(c))
+	var outb bytes.Buffer
+	cmd.Stdout = &outb
+	done := make(chan error, 1)
+	if cmd.Start() != nil {
+		return nil
+	}
+	go func() { done <- cmd.Wait() }()
+	select {
+	case <-done:
+	case <-time.After(120 * time.Second):
+		cmd.Process.Kill()
+	}
+	var lines []string
+	for _, l := range strings.Split(outb.String(), "\n") {
+		if l != "" {
+			lines = append(lines, l)
+		}
+	}
+	return lines
+}
+
+// recCase: value operations of a recursive case (done in the child), oracles on its answers.
+func recCase(r *gen.Rand, c int) (t *T, encs [][]byte) {
+	fam, order, vals := recPlan(r)
+	t = recDesc(fam, 4)
+	o.InOnly("T " + t.tokens())
+	o.Count("case.recursive." + recFamNames[fam])
+	o.Count("recursive.first-use." + recOrderNames[order])
+	o.Mark(fmt.Sprintf("rec:%d:%d", fam, order))
+	lines := runRecChild(c)
+	next := func() string {
+		if len(lines) == 0 {
+			return "CHILD-DIED"
+		}
+		l := lines[0]
+		lines = lines[1:]
+		return l
+	}
+	ctx := fmt.Sprintf("family=%s first-use=%s (fresh process)", recFamNames[fam], recOrderNames[order])
+	for _, v := range vals {
+		step++
+		ds := dump(t, reflect.ValueOf(v))
+		el := next()
+		o.Op("E "+ds, el)
+		if !strings.HasPrefix(el, "e ") || strings.HasPrefix(el, "e err") {
+			o.Fail(step, "panic-encode-recursive", fmt.Sprintf("%s type=[%s] value=[%s] EncodeToBytes: %s", ctx, t.tokens(), ds, el))
+			continue
+		}
+		e, _ := hex.DecodeString(strings.TrimPrefix(strings.TrimPrefix(el, "e "), "-"))
+		encs = append(encs, e)
+		dl := next()
+		o.Op("D "+hexs(e), dl)
+		if dl != "d ok "+ds {
+			o.Fail(step, "roundtrip-recursive", fmt.Sprintf("%s type=[%s] value=[%s] enc=%s decode: %s", ctx, t.tokens(), ds, hexs(e), dl))
+		}
+		if al := next(); al != "a same" {
+			o.Fail(step, "arbiter-encode-recursive", fmt.Sprintf("%s type=[%s] value=[%s] kai=%s geth: %s", ctx, t.tokens(), ds, hexs(e), al))
+		}
+	}
+	return
+}
+
+// depth of descriptor needed to dump whatever an input can decode to
+func neededDepth(hs []hostile) int {
+	d := 4
+	for _, h := range hs {
+		n := 2
+		for _, b := range h.b {
+			if b >= 0xc0 {
+				n++
+			}
+		}
+		if n > d {
+			d = n
+		}
+	}
+	return d
+}
+
 // ---------------------------------------------------------------- cases
 
 var (
@@ -1538,7 +1890,13 @@ func runCase(r *gen.Rand, c int) {
 	var encs [][]byte
 	var reDecode func([]byte)
 	real := c%8 == 7
-	if real {
+	rec := c%16 == 3
+	recFam := 0
+	if rec {
+		t, encs = recCase(r, c)
+		for recFam = 0; recFam < nRecFam && recDesc(recFam, 0).rt != t.rt; recFam++ {
+		}
+	} else if real {
 		which := r.Intn(5)
 		// the descriptor line must precede the E ops that realCase emits
 		switch which {
@@ -1644,6 +2002,12 @@ func runCase(r *gen.Rand, c int) {
 		}
 	}
 	hs := genHostile(r, encs, 10)
+	if rec {
+		// hostile strings are decoded in-process into the named recursive type; the descriptor is
+		// unfolded as deep as any of them can nest
+		t = recDesc(recFam, neededDepth(hs))
+		o.InOnly("T " + t.tokens())
+	}
 	crashed := guardHuge(t, hs)
 	for i, h := range hs {
 		o.Count("hostile." + h.kind)
@@ -1701,6 +2065,9 @@ func runCase(r *gen.Rand, c int) {
 func main() {
 	if len(os.Args) > 1 && os.Args[1] == "-child" {
 		childMain()
+	}
+	if len(os.Args) > 3 && os.Args[1] == "-rec" {
+		recChildMain(os.Args[2:])
 	}
 	out.WriteFacts(func() string { return "(* C16 has no source-derived constants *)\n" })
 	o = out.Open()
